@@ -481,7 +481,7 @@ Definition agent_response (buf : bytes) : aresp :=
 (* 6. copy-data (sftp.py SFTPServerHandler._process_copy_data).  Abstract file: only its size matters for
       termination.  read(src, off, size) returns min(size, max(0, srcsize - off)) bytes; write(dst, off, data)
       extends dst to at least off + len(data).  [same] = source and destination handles name the same file.
-      Since fix COMMIT_C10_1 such a request is refused (SFTPFailure) before the loop, as OpenSSH's sftp-server
+      Since fix 79ceadf such a request is refused (SFTPFailure) before the loop, as OpenSSH's sftp-server
       does; [copy_data_old] is the code before that fix, where writing moved the source's end. *)
 
 Definition COPY_BLOCK : Z := 262144.
